@@ -93,8 +93,14 @@ class _Methods(dict):
     """Method table whose missing entries are analysis errors (a vanished anchor), not KeyErrors."""
 
     owner = "?"
+    program = None
 
     def __missing__(self, key: str):
+        # a method that was moved into a repo base class is still the class's method
+        if self.program is not None:
+            m = self.program.find_method(self.owner, key) if self.owner in self.program.classes and self.program.classes[self.owner].bases else None
+            if m is not None:
+                return m
         raise AnalysisError(f"anchor method `{self.owner}.{key}` not found", fatal=_public(key))
 
 
@@ -250,6 +256,7 @@ class Program:
         ci = ClassInfo(q, node.name, mod, node, base_exprs=[_dotted(b) for b in node.bases])
         ci.methods = _Methods()
         ci.methods.owner = q
+        ci.methods.program = self
         mod.classes[node.name] = ci
         self.classes[q] = ci
         for st in node.body:
